@@ -239,16 +239,24 @@ def _worker(job):
                                               if o.domain not in ("", "ai.onnx", "ai.onnx.ml") and r["declared"].get(o.domain) != int(o.version)})
         r["term"] = onnx2coq.model_term(_strip_payload(m))
         r["pyprobs"] = sorted(set(_py_problems(m)))
-        try:
-            onnx.checker.check_model(m, full_check=True)
-            r["checker"] = None
-        except Exception as e:
-            r["checker"] = f"{type(e).__name__}: {str(e)[:400]}"
+        light = numerics == "light"          # re-run after a native crash: no checker, no onnxruntime
+        r["checks_skipped"] = light
+        r["checker"] = None
+        if not light:
+            try:
+                onnx.checker.check_model(m, full_check=True)
+            except Exception as e:
+                r["checker"] = f"{type(e).__name__}: {str(e)[:400]}"
         decl = r["declared"].get("", 0)
         r["ort"] = "skipped"
         r["outputs"] = None
         r["num_skip"] = "ort does not support the declared opset"
-        if decl <= ort_max:
+        if light:
+            r["num_skip"] = "cross-checks skipped after a native crash"
+        elif r["checker"] is not None:
+            # onnxruntime has been seen to segfault on models onnx.checker rejects: do not hand them over
+            r["num_skip"] = "onnx.checker rejects the model"
+        if decl <= ort_max and not light and r["checker"] is None:
             try:
                 sess = _ort_session(data)
                 r["ort"] = None
@@ -367,40 +375,68 @@ def _spawn_env():
 
 def _run_jobs(jobs, procs, log, per_round=1400):
     """map _worker over jobs in SPAWNED processes, in rounds with fresh pools (a JAX process that has traced hundreds of
-    programs holds gigabytes); survives a crashing worker (native crash inside ORT)"""
-    from concurrent.futures import ProcessPoolExecutor
+    programs holds gigabytes).  A native crash of a worker (segfault inside jaxlib / onnx / onnxruntime) breaks a
+    ProcessPoolExecutor as a whole: the unfinished jobs are then re-run in single-worker pools, where the job that
+    kills its process is identified (the first unfinished one) and answered with status "crashed"."""
+    from concurrent.futures import ProcessPoolExecutor, ThreadPoolExecutor
     from concurrent.futures.process import BrokenProcessPool
     from multiprocessing import get_context
     results = [None] * len(jobs)
-    numerics_off = set()
 
-    def err(i, msg):
+    def answer(i, status, msg):
         return {"kind": jobs[i][0], "ident": jobs[i][1], "opset": jobs[i][2], "key": f"{jobs[i][0]}#{jobs[i][1]}",
-                "status": "harness-error", "error": msg}
-    for start in range(0, len(jobs), per_round):
-        pending = list(range(start, min(len(jobs), start + per_round)))
-        for attempt in range(4):
-            if not pending:
-                break
-            broken = False
-            with ProcessPoolExecutor(max_workers=procs, mp_context=get_context("spawn"), initializer=_init_worker) as ex:
-                futs = {}
-                for i in pending:
-                    k, ident, v, num, om = jobs[i]
-                    futs[i] = ex.submit(_worker, (k, ident, v, num and i not in numerics_off, om))
-                for i, f in futs.items():
+                "status": status, "error": msg}
+
+    light = set()
+
+    def job(i):
+        k, ident, v, num, om = jobs[i]
+        return (k, ident, v, "light" if i in light else num, om)
+
+    def isolated(idxs):
+        pending = list(idxs)
+        while pending:
+            culprit = None
+            with ProcessPoolExecutor(max_workers=1, mp_context=get_context("spawn"), initializer=_init_worker) as ex:
+                futs = [(i, ex.submit(_worker, job(i))) for i in pending]
+                for i, f in futs:
                     try:
                         results[i] = f.result(timeout=1500)
                     except BrokenProcessPool:
-                        broken = True
+                        if culprit is None:
+                            culprit = i
                     except Exception as e:  # noqa
-                        results[i] = err(i, f"{type(e).__name__}: {str(e)[:200]}")
+                        results[i] = answer(i, "harness-error", f"{type(e).__name__}: {str(e)[:200]}")
+            if culprit is not None and culprit not in light:
+                light.add(culprit)               # once more, export + conversion only
+                log.append(f"native crash isolated: {jobs[culprit][:3]}: re-run without onnx.checker / onnxruntime")
+            elif culprit is not None:
+                results[culprit] = answer(culprit, "crashed", "the worker process died (native crash) while exporting this job")
+                log.append(f"native crash during the export itself: {jobs[culprit][:3]}")
             pending = [i for i in pending if results[i] is None]
-            if broken:
-                log.append(f"worker pool broke (round {start}, attempt {attempt}); {len(pending)} jobs re-run without numerics")
-                numerics_off.update(pending)
-        for i in pending:
-            results[i] = err(i, "worker process died repeatedly")
+
+    for start in range(0, len(jobs), per_round):
+        pending = list(range(start, min(len(jobs), start + per_round)))
+        broken = False
+        with ProcessPoolExecutor(max_workers=procs, mp_context=get_context("spawn"), initializer=_init_worker) as ex:
+            futs = {i: ex.submit(_worker, jobs[i]) for i in pending}
+            for i, f in futs.items():
+                try:
+                    results[i] = f.result(timeout=1500)
+                except BrokenProcessPool:
+                    broken = True
+                except Exception as e:  # noqa
+                    results[i] = answer(i, "harness-error", f"{type(e).__name__}: {str(e)[:200]}")
+        pending = [i for i in pending if results[i] is None]
+        if broken and pending:
+            log.append(f"worker pool broke in round {start}: {len(pending)} unfinished jobs re-run in single-worker pools")
+            k = max(1, min(procs, len(pending)))
+            chunks = [pending[j::k] for j in range(k)]
+            with ThreadPoolExecutor(max_workers=k) as tex:
+                list(tex.map(isolated, chunks))
+        for i in range(start, min(len(jobs), start + per_round)):
+            if results[i] is None:
+                results[i] = answer(i, "harness-error", "no answer")
     return results
 
 
@@ -578,6 +614,8 @@ def run(ctx):
     mirror_diff = []
     rejected_only = []
     judged_by_mirror = 0
+    crash_light = 0
+    ort_unsupported_eg = []
     ort_unsupported = 0
     samples = []
 
@@ -602,6 +640,10 @@ def run(ctx):
             if r["status"] != "ok":
                 continue
             b["exported"] += 1
+            if r.get("checker"):
+                b["checker_rejects"] += 1
+            if r.get("ort") not in (None, "skipped"):
+                b["ort_rejects"] += 1
             for dom, op in r["ops"]:
                 if dom not in ("", "ai.onnx", "ai.onnx.ml") and (dom, op) not in set(map(tuple, r.get("functions", []))):
                     foreign_nodes.add(f"{dom}::{op}")
@@ -637,26 +679,21 @@ def run(ctx):
                     ctx.violate(f"opset{v}:{op}:{reason}:{key}",
                                 f"export of {key} at opset {v}: node {op} does not conform to the schema selected by the declared opset ({reason})"
                                 f"; onnx.checker: {r.get('checker')}", rp)
-            if not probs_d:
+            if r.get("checks_skipped"):
+                crash_light += 1
+            elif not probs_d:
                 # cross-checks: a model the validator accepts must validate and load, unless the default export fails the same way
                 if r.get("checker") and ref is not None and ref["status"] == "ok" and ref.get("checker") is None and "checker" in ref:
-                    b["checker_rejects"] += 1
                     ctx.violate(f"opset{v}:checker:{key}",
                                 f"export of {key} at opset {v} is rejected by onnx.checker(full_check) while the default export validates: {r['checker'][:300]}", rp)
-                elif r.get("checker"):
-                    b["checker_rejects"] += 1
                 if r.get("ort") not in (None, "skipped"):
-                    b["ort_rejects"] += 1
                     if _ort_unsupported(r["ort"]):
                         ort_unsupported += 1
+                        if len(ort_unsupported_eg) < 4:
+                            ort_unsupported_eg.append(f"{key}@{v}: {r['ort'][:160]}")
                     elif ref is not None and ref["status"] == "ok" and "ort" in ref and ref.get("ort") is None:
                         ctx.violate(f"opset{v}:ort-load:{key}",
                                     f"export of {key} at opset {v} does not load in onnxruntime while the default export does: {r['ort'][:300]}", rp)
-            else:
-                if r.get("checker"):
-                    b["checker_rejects"] += 1
-                if r.get("ort") not in (None, "skipped"):
-                    b["ort_rejects"] += 1
             # --- same function as the default-opset export
             if ref is None or ref["status"] != "ok" or ref.get("outputs") is None:
                 why = "default export unavailable" if ref is None or ref["status"] != "ok" else (ref.get("num_skip") or "?")
@@ -723,11 +760,13 @@ def run(ctx):
         "rule": "distinct (case, opset) real exports on which Opset.all_problems/opset_ok was evaluated inside Coq; "
                 "numeric_compared = ORT outputs equal to those of the default-opset export on seeded inputs (rtol 1e-5, atol 1e-5*max(1,|ref|max), graph optimisations off)",
         "numeric_comparisons": n_numeric, "numeric_suspects": len(numeric_suspects), "numeric_confirmed": confirmed,
-        "numeric_skipped": num_skips, "ort_kernel_not_implemented": ort_unsupported,
+        "numeric_skipped": num_skips, "ort_kernel_not_implemented": ort_unsupported, "ort_kernel_not_implemented_examples": ort_unsupported_eg,
         "standard_ops_seen": len(ops_seen), "foreign_nodes_not_checked_against_schemas": sorted(foreign_nodes)[:20],
         "observation_functions_importing_own_domain_at_other_version_than_model": {"programs": len(custom_mismatch), "e.g.": sorted(custom_mismatch)[:3]},
         "missing_ops": {f"{op}@{d}": len(set(ks)) for (op, d), ks in sorted(missing.items())},
         "models_judged_by_python_recomputation_because_coq_side_broken": judged_by_mirror,
+        "models_without_cross_checks_after_native_crash_of_checker_or_ort": crash_light,
+        "export_jobs_that_crashed_natively": sum(1 for r in results if r["status"] == "crashed"),
         "rejected_at_an_opset_but_not_at_default": rejected_only,
         "timing_s": {"exports": round(t_export, 1), "coq": round(t_coq, 1)}, "log": log[:20],
     })
